@@ -23,7 +23,7 @@ VARIANTS = [
     B("amp-inner-b", AMP, AMP.replace("** (1. / b)", "** b"), "R-PL-DEG"),
     B("amp-no-half", AMP, AMP.replace(" / 2 / n_cyc", " / n_cyc"), "R-PL-INV"),
     B("amp-times-ncyc", AMP, AMP.replace(" / 2 / n_cyc", " / 2 * n_cyc"), "R-PL-INV"),
-    B("amp-diff-not-cumsum", AMP, AMP.replace("np.cumsum(", "np.abs(").replace(", axis=0) ** b", ") ** b"), "R-PL-LEN"),
+    B("amp-diff-not-cumsum", AMP, AMP.replace("np.cumsum(", "np.abs(").replace(", axis=0) ** b", ") ** b"), "R-PL-INV"),
     B("combined-one-exponent", COMB, COMB.replace("np.abs(csr_peaks_s1) ** (1. / b)", "np.abs(csr_peaks_s1)"), "R-PL-DEG"),
     B("combined-subtracts", COMB, COMB.replace(" + np.abs(csr_peaks_s1)", " - np.abs(csr_peaks_s1)"), "R-PL-LEN"),
     B("gm-arithmetic-mean-sq", "    csr_n_series = np.sqrt(csr_n_series0 * csr_n_series1)\n", "    csr_n_series = csr_n_series0 * csr_n_series1\n", "R-PL-DEG"),
